@@ -248,6 +248,15 @@ class Disjunctive(Domain):
 
     def _norm(self, s):
         s = [x for x in s if x is not None]
+        if len(s) > 8:
+            uniq = []
+            for x in s:
+                try:
+                    if not any(x == y for y in uniq):
+                        uniq.append(x)
+                except Exception:
+                    uniq.append(x)
+            s = uniq
         if len(s) > self.cap:
             merged = s[0]
             for x in s[1:]:
